@@ -35,6 +35,8 @@ func runC10(e *Env) {
 	ruleC10Lang(e)
 	ruleC10Same(e)
 	ruleC10Groups(e)
+	ruleDeleg(e, "C10.deleg", "roman")
+	e.S.Floor("C10.deleg", 12)
 	ruleC10Value(e)
 	e.S.Floor("C10.value", 4)
 	n0 := len(e.S.Obs)
